@@ -958,16 +958,38 @@ def install(lib):
         return cur
     op['join'] = _join_path
 
-    def _split_head_tail(it, p):
-        """posixpath.split semantics, definitional"""
-        i = z3.LastIndexOf(p.t, z3.StringVal('/')) + 1
-        head0 = z3.SubString(p.t, 0, i)
-        tail = z3.SubString(p.t, i, z3.Length(p.t) - i)
-        # if head and head != '/'*len(head): head = head.rstrip('/')
-        allslash = z3.InRe(head0, z3.Star(z3.Re('/')))
-        stripped = rstrip_char(it, head0, '/')
-        head = z3.If(allslash, head0, stripped)
-        return head, tail
+    def path_split(it, pt):
+        """(head, tail) with head ++ tail == p, tail the last component (no '/'), head '' or ending in '/':
+        functions of p with their defining axioms (unique decomposition), instead of last_indexof"""
+        ctx = it.ctx
+        fh = ufun('py_path_head', S, S)
+        ft = ufun('py_path_tail', S, S)
+        h, t = fh(pt), ft(pt)
+        key = ('pathsplit', pt.get_id())
+        if key not in ctx.axiom_tags:
+            ctx.axiom_tags.add(key)
+            ctx.assume(pt == z3.Concat(h, t))
+            ctx.assume(z3.Not(z3.Contains(t, z3.StringVal('/'))))
+            ctx.assume(z3.Or(h == z3.StringVal(''), z3.SuffixOf(z3.StringVal('/'), h)))
+        return h, t
+    lib.path_split = path_split
+
+    def dot_split(it, tt):
+        """(pre, suf) with pre ++ suf == t, suf from the last '.' of t ('' if none)"""
+        ctx = it.ctx
+        fp = ufun('py_dot_pre', S, S)
+        fs = ufun('py_dot_suf', S, S)
+        pre, suf = fp(tt), fs(tt)
+        key = ('dotsplit', tt.get_id())
+        if key not in ctx.axiom_tags:
+            ctx.axiom_tags.add(key)
+            dot = z3.StringVal('.')
+            ctx.assume(tt == z3.Concat(pre, suf))
+            ctx.assume(z3.Or(z3.And(suf == z3.StringVal(''), z3.Not(z3.Contains(tt, dot))),
+                             z3.And(z3.PrefixOf(dot, suf),
+                                    z3.Not(z3.Contains(z3.SubString(suf, 1, z3.Length(suf) - 1), dot)))))
+        return pre, suf
+    lib.dot_split = dot_split
 
     @F('os.path.dirname')
     def _dirname(it, a, k, n):
@@ -975,8 +997,10 @@ def install(lib):
         if r is not None:
             return r
         p = it.ctx.force(a[0])
-        h, t = _split_head_tail(it, p)
-        return VStr(simp(h))
+        h, t = path_split(it, p.t)
+        allslash = z3.InRe(h, z3.Star(z3.Re('/')))
+        stripped = rstrip_char(it, h, '/')
+        return VStr(simp(z3.If(allslash, h, stripped)))
     op['dirname'] = _dirname
 
     @F('os.path.basename')
@@ -985,8 +1009,8 @@ def install(lib):
         if r is not None:
             return r
         p = it.ctx.force(a[0])
-        i = z3.LastIndexOf(p.t, z3.StringVal('/')) + 1
-        return VStr(simp(z3.SubString(p.t, i, z3.Length(p.t) - i)))
+        h, t = path_split(it, p.t)
+        return VStr(t)
     op['basename'] = _basename
 
     @F('os.path.relpath')
@@ -1018,21 +1042,13 @@ def install(lib):
         if r is not None:
             return r
         p = it.ctx.force(a[0])
-        sep = z3.LastIndexOf(p.t, z3.StringVal('/'))
-        dot = z3.LastIndexOf(p.t, z3.StringVal('.'))
-        stem = z3.SubString(p.t, sep + 1, dot - sep - 1)
-        has_ext = z3.And(dot > sep, z3.Not(z3.InRe(stem, z3.Star(z3.Re('.')))))
-        root = z3.If(has_ext, z3.SubString(p.t, 0, dot), p.t)
-        ext = z3.If(has_ext, z3.SubString(p.t, dot, z3.Length(p.t) - dot), z3.StringVal(''))
+        h, t = path_split(it, p.t)
+        pre, suf = dot_split(it, t)
+        has_ext = z3.And(suf != z3.StringVal(''), z3.Not(z3.InRe(pre, z3.Star(z3.Re('.')))))
+        root = z3.If(has_ext, z3.Concat(h, pre), p.t)
+        ext = z3.If(has_ext, suf, z3.StringVal(''))
         return VTuple([VStr(simp(root)), VStr(simp(ext))])
     op['splitext'] = _splitext
-
-    env = VOpaque(z3.Const('os_environ', U), 'os.environ')
-    env.attrs = {'get': VFunc('os.environ.get', lambda it, a, k, n: VStr(it.ctx.fresh_const('envvar', S))),
-                 'copy': VFunc('os.environ.copy', lambda it, a, k, n: VCell(VMap(it.ctx.fresh_const('environ', DictT(Str, Str).sort()), Str, Str), 'dict'))}
-    for v_ in env.attrs.values():
-        v_.bind = False
-    lib.modules['os']['environ'] = env
 
     # ------------------------------------------------------------ stat / errno
     st = lib.modules.setdefault('stat', {})
